@@ -1,7 +1,7 @@
 (* C06, code half - snippet for Properties_C06.v (contributed by the `syntax` area; proofs in Syntax/CodeRoundtrip.v) *)
 From Coq Require Import ZArith List Bool Arith.
 Import ListNotations.
-From SqfVerif Require Import Syntax.SyntaxDefs Syntax.LexProofs Syntax.CodeRoundtrip Syntax.ParsePrintGen Syntax.PrettyRoundtrip Syntax.PrettySpelling.
+From SqfVerif Require Import Syntax.SyntaxDefs Syntax.LexProofs Syntax.CodeRoundtrip Syntax.ParsePrintGen Syntax.PrettyRoundtrip Syntax.PrettySpelling Syntax.ParseSound.
 From SqfVerif Require Num.NumDefs.
 
 (* str of code: for every registry and every well-formed block ss with compiled code c = postorder_block ss,
@@ -104,4 +104,76 @@ Example C06_pretty_roundtrip_computed :
   parse_text as_is ex_R 200 (pieces_text (pretty_program ex_prog)) = FOk (map pnorm_stmt ex_prog) /\
   compile_block (map pnorm_stmt ex_prog) = option_map (map (mapl_i hexnorm)) (compile_block ex_prog) /\
   compile_block ex_prog <> None.
+Proof. vm_compute. repeat split; discriminate. Qed.
+
+(* ---------------------------------------------------------------- over SOURCE TEXTS (Syntax/ParseSound.v) *)
+(* What the parser model returns for an accepted text, for every registry, text and fuel: a tree without Par
+   nodes; and - if every token of the text reads as itself (src_spelled) and every assignment target is a
+   variable (tv_stmt) - a spelled tree which, when no name is both unary and nular except the unary+nular names
+   without binary overload that the parser as it stands refuses as operands (reg_ok), is well formed for R.
+   None of the three side conditions can be dropped: C06_parse_spelled_refuted, C06_parse_wf_refuted. *)
+Theorem C06_parse_text_sound : forall (d:defects) (R:registry) (f:nat) (s:text) (ss:list stmt),
+  parse_text d R f s = FOk ss ->
+  forallb noparb_stmt ss = true /\
+  (src_spelled s -> forallb tv_stmt ss = true -> spelled_block ss /\ (reg_ok d R -> wf_block R ss)).
+Proof. exact parse_text_sound. Qed.
+Print Assumptions C06_parse_text_sound.
+
+(* the pretty printer, end to end: for every text the parser model accepts (under the side conditions), the
+   formatter's output is accepted too, as the same program up to the respelling, and compiles to the same
+   instruction sequence up to `$` -> `0x` *)
+Theorem C06_pretty_roundtrip_text : forall (d:defects) (R:registry) (f1:nat) (s:text) (ss:list stmt),
+  parse_text d R f1 s = FOk ss -> src_spelled s -> forallb tv_stmt ss = true -> reg_ok d R ->
+  exists f0, forall f, (f0 <= f)%nat ->
+    parse_text d R f (pieces_text (pretty_program ss)) = FOk (map pnorm_stmt ss) /\
+    exists c, compile_block ss = Some c /\ compile_block (map pnorm_stmt ss) = Some (map (mapl_i hexnorm) c).
+Proof. exact pretty_roundtrip_text. Qed.
+Print Assumptions C06_pretty_roundtrip_text.
+
+(* str of the compiled code, end to end *)
+Theorem C06_code_roundtrip_text : forall (d:defects) (R:registry) (show_lit:lit -> lit) (f1:nat) (s:text) (ss:list stmt),
+  parse_text d R f1 s = FOk ss -> src_spelled s -> forallb tv_stmt ss = true -> reg_ok d R -> show_kind_ok show_lit ->
+  exists c, compile_block ss = Some c /\
+  exists ps, reconstruct show_lit c = Some ps /\
+    (toks_ok ps ->
+     exists f0, forall f, (f0 <= f)%nat ->
+       exists ss', parse_text d R f (pieces_text ps) = FOk [SExpr (Code ss')] /\
+                   compile_block ss' = Some (map (mapl_i show_lit) c)).
+Proof. exact code_roundtrip_text. Qed.
+Print Assumptions C06_code_roundtrip_text.
+
+(* without the side conditions the statement over all accepted texts is false for the formatter (confirmed on the
+   binary): `"a` is printed `"a;` (the string swallows the separator), `1 = 2` is printed `2;` (the target of an
+   assignment to a non-variable is dropped, sqf_formatter.cpp:119), `1e+ 2` is printed `1e + 2` (rejected) *)
+Theorem C06_pretty_roundtrip_text_refuted :
+  (exists p p' c c', (forall f, (100 <= f)%nat -> parse_text as_is ex_R f w_string = FOk p) /\ compile_block p = Some c /\
+     (forall f, (100 <= f)%nat -> parse_text as_is ex_R f (pieces_text (pretty_program p)) = FOk p') /\ compile_block p' = Some c' /\ c <> c') /\
+  (exists p p' c c', (forall f, (100 <= f)%nat -> parse_text as_is ex_R f w_target = FOk p) /\ compile_block p = Some c /\
+     (forall f, (100 <= f)%nat -> parse_text as_is ex_R f (pieces_text (pretty_program p)) = FOk p') /\ compile_block p' = Some c' /\ c <> c') /\
+  (exists p, (forall f, (100 <= f)%nat -> parse_text as_is ex_R f w_number = FOk p) /\
+     (forall f, (100 <= f)%nat -> parse_text as_is ex_R f (pieces_text (pretty_program p)) = FParseError)).
+Proof. exact pretty_roundtrip_text_refuted. Qed.
+Print Assumptions C06_pretty_roundtrip_text_refuted.
+
+Theorem C06_parse_spelled_refuted : exists R s ss, parse_text as_is R 100 s = FOk ss /\ ~ src_spelled s /\ ~ spelled_block ss.
+Proof. exact parse_spelled_refuted. Qed.
+Print Assumptions C06_parse_spelled_refuted.
+
+Theorem C06_parse_wf_refuted :
+  (exists ss, parse_text as_is ex_R 100 w_target = FOk ss /\ src_spelled w_target /\ reg_ok as_is ex_R /\ ~ wf_block ex_R ss) /\
+  (exists ss, parse_text as_is R_bun 100 w_nular = FOk ss /\ src_spelled w_nular /\ forallb tv_stmt ss = true /\ ~ wf_block R_bun ss).
+Proof. exact parse_wf_refuted. Qed.
+Print Assumptions C06_parse_wf_refuted.
+
+(* non-vacuity on a real text: ex_src meets the side conditions, and the conclusion computes
+   (C06_pretty_roundtrip_computed above is the computed round trip of the same text) *)
+Example C06_text_hypotheses_satisfiable :
+  parse_text as_is ex_R 200 ex_src = FOk ex_prog /\ src_spelled ex_src /\ forallb tv_stmt ex_prog = true /\ reg_ok as_is ex_R.
+Proof. exact ex_text_hyps. Qed.
+Example C06_text_roundtrip_computed :
+  match parse_text as_is ex_R 200 ex_src with
+  | FOk p => parse_text as_is ex_R 200 (pieces_text (pretty_program p)) = FOk (map pnorm_stmt p) /\
+             compile_block (map pnorm_stmt p) = option_map (map (mapl_i hexnorm)) (compile_block p) /\ compile_block p <> None
+  | _ => False
+  end.
 Proof. vm_compute. repeat split; discriminate. Qed.
